@@ -53,6 +53,70 @@ pub fn run(tier: Tier) -> i32 {
     code
 }
 
+/// C16: the will through the real connection task (E6), then will histories on the stepped
+/// router (E1)
+pub fn run_c16(tier: Tier) -> i32 {
+    let reporter = Reporter::new("C16");
+    let mut ev = Evidence::new("C16", tier);
+    let cases = e6::will_cases();
+    let fired: usize = cases
+        .par_iter()
+        .map(|c| {
+            let o = e6::run_scenario(&c.sc);
+            for v in e6::judge_will(c, &o).iter() {
+                reporter.report(v, || json!({"engine": "e6_will", "case": c}));
+            }
+            o.filter_entries.iter().any(|(f, n)| f == "w" && *n > 0) as usize
+        })
+        .sum();
+    let expected = cases.iter().filter(|c| c.expect_will).count();
+    if expected < 4 || expected == cases.len() {
+        crate::vcore::machinery_error("C16: vacuous will matrix");
+    }
+    ev.states += cases.len() as u64;
+    ev.transitions += cases.len() as u64;
+    ev.traces_validated += cases.len() as u64;
+    ev.set("fullstack_will_cases", json!(cases.len()));
+    ev.set("fullstack_will_cases_expecting_the_will", json!(expected));
+    ev.set("fullstack_will_cases_will_published", json!(fired));
+    ev.sample(json!({"fullstack_will_case": {"v5": cases[5].v5, "will": cases[5].will, "ending": cases[5].name, "expect_will": cases[5].expect_will}}));
+    crate::e1::run::explore_plans("C16", tier, &reporter, &mut ev, 1.0);
+    ev.assumptions.push("the full-stack part runs the real remote() task over an in-memory duplex stream with the real router stepped by the harness thread (one will owner, every way its connection can end); the router part plays the link itself".into());
+    ev.violations = reporter.new_violations();
+    let notes: Vec<String> = reporter.notes().iter().map(|(c, n)| format!("{c}: {n}")).collect();
+    ev.set("branches_ended_by_oracles_of_other_statements", json!(notes));
+    let code = reporter.finish();
+    ev.write();
+    println!("C16 {}: full-stack will cases={} (will expected in {}, published in {})", tier.name(), cases.len(), expected, fired);
+    code
+}
+
+pub fn replay_will(v: &serde_json::Value) -> i32 {
+    let c: e6::WillCase = serde_json::from_value(v["case"].clone()).unwrap();
+    let mut last = None;
+    for _ in 0..2 {
+        let o = e6::run_scenario(&c.sc);
+        println!("events={:?} log entries={:?} retained={:?} finished={}", o.events, o.filter_entries, o.retained, o.task_finished);
+        if let Some(prev) = &last {
+            if *prev != o {
+                crate::vcore::machinery_error("E6 replay is not deterministic");
+            }
+        }
+        last = Some(o);
+    }
+    let viols = e6::judge_will(&c, last.as_ref().unwrap());
+    for v in viols.iter() {
+        println!("  !! {} {}: {}", v.property, v.code, v.detail);
+    }
+    if viols.is_empty() {
+        println!("replay: no violation");
+        0
+    } else {
+        println!("replay: {} violation(s) reproduced", viols.len());
+        1
+    }
+}
+
 pub fn replay(v: &serde_json::Value) -> i32 {
     let c: e6::Case = serde_json::from_value(v["case"].clone()).unwrap();
     let mut last = None;
